@@ -264,6 +264,9 @@ pub trait Arch<W> {
     fn preset_versions(&self, w: &mut W, slots: &[(usize, u32)], arch_version: u32);
     fn events(&self, w: &W) -> Option<(Vec<EntityAny>, Vec<EntityAny>)>;
     fn clear_events(&self, w: &mut W);
+    /// Takes a runtime borrow of every column (shared, or mutable if `mutable`) and leaks the
+    /// guards with `mem::forget` (safe code): the columns stay flagged as borrowed for ever.
+    fn leak_guards(&self, w: &W, mutable: bool);
 }
 
 #[macro_export]
@@ -760,6 +763,10 @@ macro_rules! arch_adapter {
                 calls
             }
 
+            fn leak_guards(&self, w: &$W, mutable: bool) {
+                let a = w.archetype::<$A>();
+                $( if mutable { std::mem::forget(a.borrow_slice_mut::<$C>()); } else { std::mem::forget(a.borrow_slice::<$C>()); } )*
+            }
             fn dump(&self, w: &$W) -> $crate::adapter::VerifDump { w.$f.data.verif_dump() }
             fn preset_versions(&self, w: &mut $W, slots: &[(usize, u32)], arch_version: u32) {
                 w.$f.data.verif_preset_versions(slots, arch_version)
